@@ -1,1 +1,283 @@
 // harness bodies for h2 src/proto/streams/send.rs (compiled in-crate as `verif_h`, feature "verif")
+use super::*;
+use crate::proto::streams::buffer::verif_h as buf_h;
+use crate::proto::streams::counts::verif_h as counts_h;
+use crate::proto::streams::flow_control::verif_h as fc_h;
+use crate::proto::streams::prioritize::verif_h as prio_h;
+use crate::proto::streams::state::verif_h as st_h;
+use crate::proto::streams::store::verif_h as store_h;
+use crate::proto::streams::store::Resolve;
+use crate::proto::streams::verif_h::{cfg, cw, SymBuf};
+use crate::proto::peer;
+
+type F = Frame<SymBuf>;
+
+pub(crate) struct SWorld {
+    pub send: Send,
+    pub counts: Counts,
+    pub store: Store,
+    pub buffer: Buffer<F>,
+    pub key: store::Key,
+    pub task: Option<Waker>,
+}
+const ID: u32 = 1;
+
+fn sworld(state_shape: u8, open_streaming: bool) -> SWorld {
+    let c = cfg();
+    let send = Send::new(&c);
+    let mut counts = Counts::new(peer::Dyn::Client, &c);
+    let mut store = Store::new();
+    let buffer: Buffer<F> = buf_h::with_capacity(4);
+    let id = StreamId::from(ID);
+    let mut stream = Stream::new(id, 0, 0);
+    stream.state = st_h::state_of_shape(state_shape, id);
+    if open_streaming {
+        st_h::set_inner_open_streaming(&mut stream.state);
+    }
+    stream.ref_count = 1;
+    let key = store_h::insert_slab_only(&mut store, stream);
+    {
+        let mut p = store.resolve(key);
+        counts.inc_num_send_streams(&mut p);
+    }
+    SWorld { send, counts, store, buffer, key, task: None }
+}
+
+/// symbolic send-side ledgers satisfying J=, S2 (buffered = 0: empty queue)
+fn sym_ledgers(w: &mut SWorld) -> (i32, i32, i64, i32, i32, u32) {
+    let cwv: i32 = kani::any();
+    let ca: i32 = kani::any();
+    let others: i64 = kani::any();
+    let sw: i32 = kani::any();
+    let a: i32 = kani::any();
+    let req: u32 = kani::any();
+    kani::assume(cwv >= 0 && ca >= 0 && others >= 0 && others <= 0x7fff_ffff && a >= 0);
+    kani::assume(ca as i64 + a as i64 + others == cwv as i64);
+    kani::assume(a as i64 <= if sw > 0 { sw as i64 } else { 0 } && a as i64 <= req as i64);
+    prio_h::set_conn_flow(&mut w.send.prioritize, cwv, ca);
+    let mut p = w.store.resolve(w.key);
+    fc_h::set(&mut p.send_flow, sw, a);
+    p.requested_send_capacity = req;
+    p.buffered_send_data = 0;
+    (cwv, ca, others, sw, a, req)
+}
+
+/// C17.one / C17.code / C16.total: explicit reset of an open stream with an empty queue.
+pub fn c17_one_send_reset_open() {
+    let mut w = sworld(3, true);
+    let (cwv, ca, others, _sw, a, _req) = sym_ledgers(&mut w);
+    let code: u32 = kani::any();
+    let init = if kani::any() { Initiator::User } else { Initiator::Library };
+    w.task = Some(cw::waker(3));
+    let wakes0 = cw::wakes(3);
+    {
+        let mut p = w.store.resolve(w.key);
+        w.send.send_reset(code.into(), init, &mut w.buffer, &mut p, &mut w.counts, &mut w.task);
+    }
+    {
+        let mut p = w.store.resolve(w.key);
+        assert!(p.state.is_reset() && p.state.is_local_error(), "stream not marked reset");
+        match p.state.ensure_reason(PollReset::Streaming) {
+            Ok(Some(r)) => assert!(u32::from(r) == code, "C17.code: recorded reset code differs from the caller's"),
+            _ => panic!("reset not recorded"),
+        }
+        // exactly one RST_STREAM, carrying the caller's code, is queued
+        match p.pending_send.pop_front(&mut w.buffer) {
+            Some(Frame::Reset(r)) => {
+                assert!(u32::from(r.reason()) == code && r.stream_id() == StreamId::from(ID), "C17.code: RST_STREAM code/stream");
+            }
+            _ => panic!("C17.one: no RST_STREAM queued for an open stream"),
+        }
+        assert!(p.pending_send.is_empty(), "C17.one: more than one frame queued by a reset");
+        assert!(p.is_pending_send, "C06.Q2: RST_STREAM queued but stream not scheduled");
+        // C16.total: the stream's capacity went back to the connection
+        let (_, a2) = fc_h::get(&p.send_flow);
+        assert!(a2 == 0, "reset stream keeps send capacity");
+    }
+    let (cw2, ca2) = prio_h::conn_flow(&w.send.prioritize);
+    assert!(cw2 == cwv && ca2 as i64 == ca as i64 + a as i64 && ca2 as i64 + others == cw2 as i64, "C16.total: capacity of a reset stream leaked");
+    assert!(cw::wakes(3) == wakes0 + 1 && w.task.is_none(), "C06.Q3: connection task not woken for the RST_STREAM");
+    // second reset with any code: nothing more
+    let code2: u32 = kani::any();
+    {
+        let mut p = w.store.resolve(w.key);
+        w.send.send_reset(code2.into(), Initiator::User, &mut w.buffer, &mut p, &mut w.counts, &mut w.task);
+        assert!(p.pending_send.is_empty(), "C17.one: a second reset queued another RST_STREAM");
+        match p.state.ensure_reason(PollReset::Streaming) {
+            Ok(Some(r)) => assert!(u32::from(r) == code, "a second reset overwrote the first code"),
+            _ => panic!("reset lost"),
+        }
+    }
+    kani::cover!(a > 0, "capacity_returned");
+    kani::cover!(true, "end");
+    std::mem::forget(w);
+}
+
+/// C17.one: resetting a stream that closed cleanly and flushed everything puts nothing
+/// on the wire; resetting an already reset stream changes nothing.
+fn send_reset_closed(shape: u8) {
+    let mut w = sworld(shape, false);
+    let _l = sym_ledgers(&mut w);
+    let before_reset = {
+        let p = w.store.resolve(w.key);
+        p.state.is_reset()
+    };
+    let code: u32 = kani::any();
+    {
+        let mut p = w.store.resolve(w.key);
+        w.send.send_reset(code.into(), Initiator::User, &mut w.buffer, &mut p, &mut w.counts, &mut w.task);
+        assert!(p.pending_send.is_empty(), "C17.one: RST_STREAM queued for a stream that had already closed");
+        assert!(!p.is_pending_send);
+        if before_reset {
+            assert!(st_h::shape(&p.state) == shape, "reset of a reset stream changed its state");
+        }
+    }
+    assert!(buf_h::slab_len(&w.buffer) == 0);
+    kani::cover!(true, "end");
+    std::mem::forget(w);
+}
+pub fn c17_one_send_reset_closed_clean() { send_reset_closed(6) }
+pub fn c17_one_send_reset_already_reset() { send_reset_closed(7) }
+
+/// C17.one: a stream whose END_STREAM is queued (state already Closed(EndStream)) but whose
+/// DATA is still blocked on flow control - unsent frames in its queue, stream not
+/// scheduled - must still get its RST_STREAM, and the unsent DATA must be discarded.
+pub fn c17_one_send_reset_closed_unflushed() {
+    let mut w = sworld(6, false);
+    let (_cwv, _ca, _others, _sw, _a, _req) = sym_ledgers(&mut w);
+    let sz: usize = kani::any();
+    kani::assume(sz >= 1 && sz <= 0x7fff_ffff);
+    {
+        let mut p = w.store.resolve(w.key);
+        let mut d = frame::Data::new(StreamId::from(ID), SymBuf { off: 0, rem: sz });
+        d.set_end_stream(true);
+        p.pending_send.push_back(&mut w.buffer, d.into());
+        p.buffered_send_data = sz;
+        // blocked: not in the prioritizer's send queue
+        assert!(!p.is_pending_send);
+    }
+    let code: u32 = kani::any();
+    {
+        let mut p = w.store.resolve(w.key);
+        w.send.send_reset(code.into(), Initiator::User, &mut w.buffer, &mut p, &mut w.counts, &mut w.task);
+    }
+    let mut p = w.store.resolve(w.key);
+    match p.pending_send.pop_front(&mut w.buffer) {
+        Some(Frame::Reset(r)) => assert!(u32::from(r.reason()) == code, "C17.code"),
+        Some(_) => panic!("C17.one: unsent DATA of a reset stream was kept (it would be sent after the reset)"),
+        None => panic!("C17.one: no RST_STREAM for a stream that still had unsent frames"),
+    }
+    assert!(p.pending_send.is_empty() && p.buffered_send_data == 0);
+    assert!(p.is_pending_send, "C06.Q2: RST_STREAM queued but stream not scheduled");
+    kani::cover!(true, "end");
+    std::mem::forget(w);
+}
+
+/// C17: implicit reset when the last handle is dropped (`schedule_implicit_reset`).
+fn implicit_reset(shape: u8, streaming: bool) {
+    let mut w = sworld(shape, streaming);
+    let (cwv, ca, others, _sw, a, _req) = sym_ledgers(&mut w);
+    let code: u32 = kani::any();
+    let was_closed = {
+        let p = w.store.resolve(w.key);
+        p.state.is_closed()
+    };
+    w.task = Some(cw::waker(3));
+    let wakes0 = cw::wakes(3);
+    {
+        let mut p = w.store.resolve(w.key);
+        w.send.schedule_implicit_reset(&mut p, code.into(), &mut w.counts, &mut w.task);
+    }
+    let p = w.store.resolve(w.key);
+    if was_closed {
+        assert!(st_h::shape(&p.state) == shape && !p.is_pending_send, "implicit reset of a closed stream must do nothing");
+    } else {
+        assert!(p.state.is_scheduled_reset() && p.state.get_scheduled_reset().map(u32::from) == Some(code), "scheduled reset code");
+        assert!(p.is_pending_send, "C06.Q2: scheduled reset but stream not queued for sending");
+        assert!(cw::wakes(3) == wakes0 + 1, "C06.Q3: connection not woken for a scheduled reset");
+        let (_, a2) = fc_h::get(&p.send_flow);
+        assert!(a2 == 0, "reserved capacity not returned (nothing is buffered)");
+        let (cw2, ca2) = prio_h::conn_flow(&w.send.prioritize);
+        assert!(cw2 == cwv && ca2 as i64 == ca as i64 + a as i64 && ca2 as i64 + others == cw2 as i64, "C16.total after implicit reset");
+        assert!(p.pending_send.is_empty(), "implicit reset queues the RST_STREAM only when popped");
+    }
+    kani::cover!(!was_closed, "scheduled");
+    kani::cover!(true, "end");
+    std::mem::forget(w);
+}
+pub fn c17_implicit_reset_open() { implicit_reset(3, true) }
+pub fn c17_implicit_reset_half_closed_remote() { implicit_reset(5, false) }
+pub fn c17_implicit_reset_closed() { implicit_reset(6, false) }
+
+/// C16.nonzero: `poll_capacity` never reports zero, ends when the stream can no longer
+/// send, stores the waker before returning Pending.
+pub fn c16_nonzero_poll_capacity() {
+    let mut w = sworld(3, false); // Open {local, remote} symbolic
+    let (_cwv, _ca, _others, _sw, a, _req) = sym_ledgers(&mut w);
+    let buffered: usize = kani::any();
+    let inc: bool = kani::any();
+    {
+        let mut p = w.store.resolve(w.key);
+        p.buffered_send_data = buffered;
+        p.send_capacity_inc = inc;
+    }
+    let wk = cw::waker(0);
+    let cx = Context::from_waker(&wk);
+    let r = {
+        let mut p = w.store.resolve(w.key);
+        w.send.poll_capacity(&cx, &mut p)
+    };
+    let mut p = w.store.resolve(w.key);
+    let streaming = p.state.is_send_streaming();
+    match r {
+        Poll::Ready(None) => assert!(!streaming, "capacity stream ended while the stream can still send"),
+        Poll::Ready(Some(Ok(c))) => {
+            assert!(streaming && inc);
+            assert!(c > 0, "C16.nonzero: poll_capacity reported zero capacity");
+            assert!(c as i64 <= a as i64, "reported capacity above what is assigned");
+            assert!(!p.send_capacity_inc);
+        }
+        Poll::Ready(Some(Err(_))) => panic!("unexpected error"),
+        Poll::Pending => {
+            assert!(streaming);
+            // the waker is stored: a later notify_send reaches this task
+            let w0 = cw::wakes(0);
+            p.notify_send();
+            assert!(cw::wakes(0) == w0 + 1, "C06: poll_capacity returned Pending without storing the waker");
+        }
+    }
+    kani::cover!(matches!(r, Poll::Pending) && inc, "flag_set_but_zero");
+    kani::cover!(matches!(r, Poll::Ready(Some(Ok(_)))), "reported");
+    kani::cover!(true, "end");
+    std::mem::forget(w);
+}
+
+/// C04.ids: `Send::open` hands out strictly increasing ids of the same parity and
+/// refuses (forever) once they are exhausted - for every starting id.
+pub fn c04_ids_open_sequence() {
+    let c = cfg();
+    let mut send = Send::new(&c);
+    let start: u32 = kani::any();
+    kani::assume(start >= 1 && start <= 0x7fff_ffff);
+    send.next_stream_id = Ok(StreamId::from(start));
+    let a = send.open();
+    let b = send.open();
+    let c3 = send.reserve_local();
+    match (&a, &b) {
+        (Ok(x), Ok(y)) => {
+            assert!(u32::from(*x) == start && u32::from(*y) == start + 2, "ids must increase by 2");
+            assert!(u32::from(*y) <= 0x7fff_ffff);
+        }
+        (Ok(x), Err(_)) => {
+            assert!(u32::from(*x) == start && start as u64 + 2 > 0x7fff_ffff, "spurious id exhaustion");
+            assert!(c3.is_err(), "C04: ids wrapped or restarted after exhaustion");
+        }
+        _ => panic!("first open failed although an id was available"),
+    }
+    if let (Ok(y), Ok(z)) = (&b, &c3) {
+        assert!(u32::from(*z) == u32::from(*y) + 2);
+    }
+    kani::cover!(b.is_err(), "exhausted");
+    kani::cover!(true, "end");
+    std::mem::forget(send);
+}
